@@ -1203,6 +1203,21 @@ fn main() {
         let hows = ["independent", "independent", "affine_pos", "affine_neg", "second_constant", "unequal_len"];
         two_series(&mut em, &mut rng, a, &b, false, &format!("style=random second={}", hows[how]));
     }
+    // non-dyadic values (k/7, k/10): a constant series then has a tiny non-zero variance (rounding residue of sum2/n - mean^2)
+    // instead of an exact 0, and only the EPS guards keep the correlation null (seed C04-5: one guard on the product)
+    for (i, a0) in randoms.iter().enumerate().take(if thorough { 240 } else { 60 }) {
+        let den = [7i64, 10, 7][i % 3];
+        let a = Series { k: a0.k.clone(), den, tags: String::new() };
+        let mut b = gen_series(&mut rng, a.len());
+        b.den = den;
+        let how = i % 3;
+        if how != 2 {
+            let c = rng.range(-9, 9);
+            b.k.iter_mut().for_each(|x| if x.is_some() { *x = Some(c) });
+        }
+        let (a, b) = if how == 1 { (b, a) } else { (a, b) };
+        two_series(&mut em, &mut rng, &a, &b, false, &format!("style=nondyadic second={}", ["second_constant", "first_constant", "independent"][how]));
+    }
     // unequal lengths, small
     for (la, lb) in [(0usize, 2usize), (2, 0), (2, 3), (3, 2), (1, 4), (4, 1)] {
         for _ in 0..(if thorough { 40 } else { 8 }) {
